@@ -61,12 +61,11 @@ def ibzCornacchiaPrime (n p : Int) : Res (Int × Int) :=
       | .ok (r0, prod) => cornFinish n p r0 prod
 
 /-- `ibz_cornacchia_special_prime(x, y, n, p, exp_adjust)` : x² + n·y² = 2^exp_adjust · p.
-    `xy0` = contents of the output variables on entry: when gcd(p, n) ≠ 1 (and p ≠ 2) the C skips the whole
-    computation and returns `res = 1` with x, y untouched. -/
-def ibzCornacchiaSpecialPrime (xy0 : Int × Int) (n p : Int) (e : Nat) : Res (Int × Int) :=
+    Repaired code: gcd(p, n) ≠ 1 (p ≠ 2) reports failure. -/
+def ibzCornacchiaSpecialPrime (n p : Int) (e : Nat) : Res (Int × Int) :=
   let p4 := p * 2 ^ e
   if p = 2 then (if n = 1 then .ok (1, 1) else .fail)
-  else if (gcdext p n).1 ≠ 1 then .ok xy0
+  else if (gcdext p n).1 ≠ 1 then .fail
   else
     match ibzSqrtModP (0 - n) p with
     | .ub => .ub
